@@ -254,11 +254,24 @@ def run_concurrent(n, rng):
     (FMMU register writes seen by the terminal + enter/exit of each task)"""
     t = bus.SimTerminal("T", station=9, fmmus=n)
     b = bus.Bus([t])
-    ntask = rng.randint(2, 4)
+    ntask = rng.choice([2, 3, 4, 4, 5, 6])
     addr = rng.choice(["distinct", "distinct", "zero", "same", "pairs"])
-    plan_ = [dict(write=rng.random() < 0.4, start=rng.randint(0, 4),
-                  hold=rng.randint(0, 6), logical=next_logical(addr, k))
+    # (a bus round trip takes several passes of the event loop: offsets up
+    # to a few dozen passes let a mapping start inside another mapping's
+    # configuration or switch-off round trip)
+    wide = rng.choice([4, 4, 12, 40])
+    plan_ = [dict(write=rng.random() < 0.4, start=rng.randint(0, wide),
+                  hold=rng.randint(0, rng.choice([6, 6, 20])),
+                  logical=next_logical(addr, k))
              for k in range(ntask)]
+    if rng.random() < 0.5:
+        # chained: most tasks start relative to an earlier one
+        for k in range(1, ntask):
+            if rng.random() < 0.8:
+                plan_[k]["after"] = [rng.choice(["exit", "exit", "done"]),
+                                     rng.randrange(k)]
+                plan_[k]["start"] = rng.randint(0, 6)
+                plan_[k]["hold"] = rng.choice([0, 3, 10, 30, 60])
 
     async def main(loop):
         ec = EtherCat("vf")
@@ -269,7 +282,22 @@ def run_concurrent(n, rng):
         term.pdo_in_off, term.pdo_in_sz = 0x1100, 6
         term.pdo_out_off, term.pdo_out_sz = 0x1000, 4
 
+        marks = {}
+
+        def mark(kind, k):
+            marks.setdefault((kind, k), asyncio.Event()).set()
+
         async def user(k, p):
+            if p.get("after"):
+                # start relative to another task: when its block is left
+                # (its switch-off round trip begins) or when its mapping
+                # has ended altogether
+                kind, j = p["after"]
+                ev = marks.setdefault((kind, j), asyncio.Event())
+                try:
+                    await asyncio.wait_for(ev.wait(), 5)
+                except asyncio.TimeoutError:
+                    pass
             for _ in range(p["start"]):
                 await asyncio.sleep(0)
             try:
@@ -279,9 +307,13 @@ def run_concurrent(n, rng):
                     for _ in range(p["hold"]):
                         await asyncio.sleep(0)
                     t.events.append(("exit", k, idx))
+                    mark("exit", k)
             except (ValueError, IndexError) as ex:
                 t.events.append(("failed", k, type(ex).__name__,
                                  list(term.fmmu_used)))
+            finally:
+                mark("exit", k)
+                mark("done", k)
         await asyncio.gather(*[user(k, p) for k, p in enumerate(plan_)])
         return list(term.fmmu_used)
     final = aio.run(main)
@@ -390,6 +422,80 @@ def group_leg(params, res):
                           f"the group failed ({out['outcome']}) but "
                           f"terminals keep FMMUs booked: {leaked}",
                           case=desc)
+
+
+def cancel_leg(params, res):
+    """a real sync group is cancelled while it runs, its task is awaited,
+    and right then - by the one who awaited it - a new group over the same
+    terminal objects is started: the cancelled group's mappings have ended,
+    so their FMMUs are free (the new group maps; no two live mappings share
+    an FMMU)"""
+    import random
+    from .. import simgroup
+    from ebpfcat.ebpfcat import SimpleEtherCat, SyncGroup
+    rng = random.Random(params["seed"] * 37 + 11)
+    for round_ in range(params["count"] // 2):
+        terms = simgroup.gen_terms(rng, nmax=3)
+        for d in terms:
+            d["fmmu"] = True
+        nf = rng.choice([2, 2, 3, 4])
+        wait = rng.choice([0.01, 0.03, 0.06])
+        sims = simgroup.make_sims(terms)
+        b = bus.Bus(sims)
+        out = {}
+
+        async def main(loop):
+            ec = SimpleEtherCat("vf")
+            bus.attach(ec, loop, b)
+            ts, devs = simgroup.make_rig(terms, ec)
+            for t in ts:
+                t.fmmu_used = [None] * nf
+            sg = SyncGroup(ec, devs)
+            task = sg.start()
+            await asyncio.sleep(wait)
+            out["booked"] = {t.name: list(t.fmmu_used) for t in ts}
+            task.cancel()
+            try:
+                await task
+            except asyncio.CancelledError:
+                pass
+            out["after"] = {t.name: list(t.fmmu_used) for t in ts}
+            sg2 = SyncGroup(ec, devs)
+            task2 = sg2.start()
+            await asyncio.sleep(wait)
+            out["second"] = repr(task2.exception())[:120] if task2.done() \
+                else "running"
+            out["booked2"] = {t.name: list(t.fmmu_used) for t in ts}
+            task2.cancel()
+            await asyncio.gather(task2, return_exceptions=True)
+        import logging
+        logging.disable(logging.WARNING)
+        try:
+            aio.run(main, max_iterations=200000)
+        except aio.Idle:
+            res.inconc("cancel leg: virtual loop ran away")
+            continue
+        finally:
+            logging.disable(logging.NOTSET)
+        desc = dict(kind="cancel", terms=terms, fmmus=nf, wait=wait)
+        res.case(["cancel", round_, desc],
+                 nontrivial=any(x is not None for v in out["booked"].values()
+                                for x in v))
+        res.count("groups_cancelled_and_started_again")
+        held = {k: v for k, v in out["after"].items()
+                if any(x is not None for x in v)}
+        if held:
+            res.violation(
+                "unexplained:cancelled-group-keeps-fmmus",
+                f"the group was cancelled and its task awaited; the one who "
+                f"awaited it finds FMMUs still booked: {held} (booked while "
+                f"running: {out['booked']})", case=desc)
+        elif out["second"] != "running":
+            res.violation(
+                "unexplained:cancelled-group-keeps-fmmus",
+                f"a second group over the same terminals, started right "
+                f"after the first was cancelled, ended {out['second']}",
+                case=desc)
 
 
 def reinit_leg(params, res):
@@ -611,6 +717,7 @@ def run_shard(params):
         group_leg(params, res)
         shared_leg(params, res)
         reinit_leg(params, res)
+        cancel_leg(params, res)
         return res
     n = params["n"]
     if params.get("concurrent"):
